@@ -4,6 +4,10 @@ import json
 props=[json.loads(l) for l in open('properties.jsonl')]
 TRUST="Trusted base: the Go type checker/SSA builder of x/tools v0.29.0; the std functions on the allow-lists behave as documented; exported operations receive values produced by the repo's constructors."
 claimed={
+'C09':dict(technique="static analysis: abstract decision table of pypi's Compare (AE) compared leaf by leaf with the PEP 440 sort key over the same abstract atoms; regexp-group provenance",
+ text="pypi's Compare is entirely inside the abstract evaluator's fragment. Decided: epoch decides first and the release next, whatever the later segments; release segments compare as integers with a missing segment equal to 0 (position table of the proven zip loop); with epoch and release equal, every leaf of Compare's abstract decision table gives the sign of the PEP 440 key (dev-of-bare-release < a < b < rc < final < post; dev before its phase; numbers within a phase) for every one of the 1224 pair descriptions compatible with the atoms the code consulted; every spelling of the pattern's phase alternation is ranked. The local-label clause is decided structurally (is the '+' group's field read from Compare) and fails today: known finding.",
+ note=TRUST+" Oracle: the ordering rules of the property statement as a key over abstract atoms, not the packaging library. Not decided: the acceptance grammar and separator normalisation; internal order of local labels.",
+ design="DESIGN.md 5 (C09)"),
 'C08':dict(technique="static analysis: abstract decision tables of the six SemVer comparators (AE) checked row by row against SemVer 2.0.0 section 11; regexp-group provenance; sibling cross-check",
  text="Decided on the abstract decision table of each of semver/npm/cargo/hex/golang/nuget: major, minor, patch (and NuGet's revision) decide in that order before any later part (all later parts free); a non-empty pre-release sorts below the release; the pre-release is compared by a proven position-wise loop over its dot-separated identifiers whose every abstract position world agrees with the rows of section 11.4 (missing<present, numeric by integer value, numeric<alphanumeric, alphanumeric by text); an identifier is classified numeric only under an all-digits test (never by the conversion's error result alone); the field fed by the capture group after '+' is read by nothing reachable from Compare.",
  note=TRUST+" Not decided: the strict grammar clause of the semver ecosystem (leading zeros, empty identifiers) — planned for the constructor tabulation; all-digit identifiers beyond 64 bits; that Go pseudo-version spellings are reconstructed faithfully (the text after the first '-' of the matched string is used).",
